@@ -69,6 +69,11 @@ CHECKS["C20"] = ("§5 C20", "The real load_plugins over three custom plugin clas
     "UNBOUNDED symbolic order values incl. ties) against 'importable and constructible and active, stably sorted'; and fault isolation: two plugins of each of 5 types, one or both "
     "failing in each of 7 callbacks (resource, decorate, log, create_span, close, metric, shutdown) through the real Deep.start / handler / Deep.shutdown - the healthy "
     "plugin's calls, the delivered snapshot and its decorations, span closing and shutdown attempts are all preserved.")
+CHECKS["C01"] = ("§5 C01", "Reduction of host transparency to the trace-function contract (may affect the host only by raising, by its return value, or by mutating "
+    "reachable objects) checked on the real handler: 10 tracepoint configurations x scripts of 3-4 events x hostile values (33 kinds, 6 exception classes incl. BaseException "
+    "subclasses) in locals / return value / exception argument, and fault injection at a SYMBOLIC call index among the agent's calls into its sub-components and environment "
+    "(the solver partitions the index over the calls actually made), both fault classes: nothing is raised, tracing stays on, locals untouched, iterators not advanced, and a "
+    "later benign run over the same tracepoints still produces every effect (no poisoned per-thread state).")
 PENDING = {}
 
 def main():
